@@ -221,6 +221,48 @@ fn main() {
         arr::<10000>(&mut out);
         arr::<10001>(&mut out);
         arr::<20000>(&mut out);
+        // values in special states: locked / poisoned / borrowed containers report as many children as can be fetched
+        fn consistent(name: &str, v: &dyn Introspect, out: &mut impl Write) {
+            out.flush().unwrap();
+            if std::env::var("LENS_DEBUG").is_ok() {
+                eprintln!("lens: {}", name);
+            }
+            let r = catch_unwind(AssertUnwindSafe(|| {
+                let len = v.introspect_len();
+                let mut n = 0;
+                while n < 100 && v.introspect_child(n).is_some() {
+                    n += 1;
+                }
+                (len, n)
+            }));
+            let mut fails = vec![];
+            match r {
+                Ok((len, n)) if len == n => {}
+                Ok((len, n)) => fails.push(json!({"check": "c17.len.state", "detail": format!("{}: introspect_len() = {} but {} children can be fetched", name, len, n)})),
+                Err(_) => fails.push(json!({"check": "c17.len.state.panic", "detail": format!("{}: introspection panicked", name)})),
+            }
+            writeln!(out, "{}", json!({"k": 0, "fails": fails})).unwrap();
+        }
+        std::panic::set_hook(Box::new(|_| {}));
+        let healthy = std::sync::Mutex::new(5u32);
+        consistent("std::sync::Mutex (healthy)", &healthy, &mut out);
+        let poisoned = std::sync::Arc::new(std::sync::Mutex::new(5u32));
+        {
+            let p2 = poisoned.clone();
+            let _ = std::thread::spawn(move || {
+                let _g = p2.lock().unwrap();
+                panic!("poison the mutex");
+            })
+            .join();
+        }
+        consistent("std::sync::Mutex (poisoned)", &*poisoned, &mut out);
+        consistent("Arc<std::sync::Mutex> (poisoned)", &poisoned, &mut out);
+        let cell = std::cell::RefCell::new(3u16);
+        consistent("RefCell (free)", &cell, &mut out);
+        let pl = parking_lot::Mutex::new(1u8);
+        consistent("parking_lot::Mutex (free)", &pl, &mut out);
+        let rw = parking_lot::RwLock::new(1u8);
+        consistent("parking_lot::RwLock (free)", &rw, &mut out);
         return;
     }
     if args.len() < 4 || args[1] != "replay" {
